@@ -25,6 +25,19 @@ _PHASES = collections.OrderedDict()
 _T = [0.0]
 
 
+def _guard(ctx, name, fn, *a, **k):
+    """A part of the harness must not take the check down when the code under test misbehaves in a way the harness did
+    not foresee: record it as a broken tie and go on (the other oracles still look for a concrete failing input)."""
+    import traceback
+    try:
+        return fn(*a, **k)
+    except KeyboardInterrupt:
+        raise
+    except Exception:
+        ctx.tie_broken("harness-exception:" + name, traceback.format_exc()[-1500:])
+        return None
+
+
 def _phase(name):
     import time
     now = time.time()
@@ -117,6 +130,9 @@ THEOREMS = {
         "Shroud.Scope.cli_path_eq_create_wrapper",
         "Shroud.Scope.function_scoped_not_read_at_library_level",
         "Shroud.Scope.function_scoped_not_cached_across_declarations",
+        "Shroud.Scope.member_options_read_from_member",
+        "Shroud.Scope.library_format_eq_template",
+        "Shroud.Scope.namespace_format_vs_template",
     ]
 }
 
@@ -320,6 +336,10 @@ def _real_scope_program(ops):
                 out.append(",".join("%s=%d" % (k[1:], v) for k, v in d.items()) if d else "-")
         except RecursionError:
             out.append("R")
+        except _Timeout:
+            raise
+        except Exception as e:      # the code under test failed: a result to compare, never a harness failure
+            out.append("X:" + type(e).__name__)
     return " ".join(out)
 
 
@@ -616,10 +636,12 @@ def real_merge(scr, yopts, ylang, opts, lang):
             smain.main_with_args(args)
     except _Captured:
         pass
-    except (ValueError, AttributeError) as e:
+    except (Exception, SystemExit) as e:
         return "crash " + type(e).__name__
     finally:
         smain.ast.create_library_from_dictionary = saved
+    if "node" not in got:
+        return "crash no-library-created"
     node = got["node"]
     if "options" not in node:
         o = "A"
@@ -942,6 +964,25 @@ def set_on(items, target, field, key, val):
             return it[:field] + (d,) + it[field + 1:]
         return it
     return map_tree(items, f)
+
+
+def set_on_kind(items, target, field, key, val, kind):
+    """Set on every node of `kind` ('ns' / 'cls') below `target` (everywhere when target == ()) that has no nearer definition."""
+    def walk(lst, path, inside, shadowed):
+        out = []
+        for idx, it in enumerate(lst):
+            p = path + (idx,)
+            ins = inside or p == target
+            if it[0] != "fn":
+                sh = shadowed or (inside and key in it[field])
+                if it[0] == kind and inside and not shadowed and key not in it[field]:
+                    d = dict(it[field]); d[key] = val
+                    it = it[:field] + (d,) + it[field + 1:]
+                    sh = True      # nested nodes inherit from this one
+                it = it[:4] + (walk(it[4], p, ins, sh),) + tuple(it[5:])
+            out.append(it)
+        return out
+    return walk(items, (), target == (), False)
 
 
 def set_on_members(items, target, field, key, val):
@@ -1625,6 +1666,142 @@ def oracle_aliases(ctx, orc, scr, r, thorough, opt_cases, fmt_cases):
     ctx.note("alias_pairs", {"pairs": 6 if thorough else 3, "aliases_made": n_alias})
 
 
+def harvest_template_fields():
+    """(node class, format field, template option) for every `self.eval_template("NAME"[, "TNAME"])` in the
+    default_format / expand_format_templates methods of LibraryNode, NamespaceNode and ClassNode (AST scan of ast.py)."""
+    import ast as pyast
+    src = open(os.path.join(common.REPO, "shroud", "ast.py")).read()
+    out = []
+    for cls in pyast.walk(pyast.parse(src)):
+        if isinstance(cls, pyast.ClassDef) and cls.name in ("LibraryNode", "NamespaceNode", "ClassNode"):
+            for n in pyast.walk(cls):
+                if isinstance(n, pyast.Call) and isinstance(n.func, pyast.Attribute) and n.func.attr == "eval_template" \
+                        and isinstance(n.func.value, pyast.Name) and n.func.value.id == "self" and n.args \
+                        and isinstance(n.args[0], pyast.Constant):
+                    tn = n.args[1].value if len(n.args) > 1 and isinstance(n.args[1], pyast.Constant) else ""
+                    rec = (cls.name, n.args[0].value, n.args[0].value + tn + "_template")
+                    if rec not in out:
+                        out.append(rec)
+    return out
+
+
+def oracle_format_vs_template(ctx, orc, scr, r, thorough):
+    """A format field written directly under `format:` of a library / namespace / class equals the same literal given
+    through the template option that field is derived from (same node), including any post-processing of the value
+    (F_module_name is lower-cased): compared on the constructed nodes for every harvested field, and on complete
+    outputs for a sample."""
+    from shroud import ast, typemap
+    fields = harvest_template_fields()
+    ctx.note("harvested_template_fields", len(fields))
+    if not fields:
+        ctx.tie_broken("template-field-harvest", "no eval_template call found in ast.py")
+    kindmap = {"LibraryNode": "library", "NamespaceNode": "ns", "ClassNode": "cls"}
+    dist = collections.Counter()
+    full = []
+    for clsname, field, tmpl in fields:
+        kind = kindmap[clsname]
+        if kind == "ns" and tmpl.endswith("_library_template"):
+            continue   # only used for the namespaces named in the top-level `namespace:` field
+        for val in ("ZqMixed_%s" % field[:6], "zqlower"):
+            docs = []
+            for spelling in ("format", "template"):
+                tree = [("ns", "outer", {}, {}, [("fn", "f1", {}, {}, "void {n}()")]),
+                        ("cls", "Kls", {}, {}, [("fn", "m1", {}, {}, "int {n}(int a)")]),
+                        ("fn", "f2", {}, {}, "int {n}(int a, double b)")]
+                doc = {"library": "ftl", "cxx_header": "ftl.hpp", "options": {"debug_testsuite": True, "wrap_python": True}, "format": {},
+                       "tree": tree}
+                fld, key = (3, field) if spelling == "format" else (2, tmpl)
+                if kind == "library":
+                    tgt = "format" if spelling == "format" else "options"
+                    doc[tgt] = dict(doc[tgt]); doc[tgt][key] = val
+                else:
+                    doc["tree"] = set_on(tree, (0,) if kind == "ns" else (1,), fld, key, val)
+                docs.append(doc)
+            got = []
+            for doc in docs:
+                desc = yaml.safe_load(doc_yaml(doc))
+                try:
+                    typemap.initialize()
+                    with contextlib.redirect_stdout(io.StringIO()):
+                        lib = ast.create_library_from_dictionary(desc)
+                    node = lib if kind == "library" else lib.namespaces[0] if kind == "ns" else lib.classes[0]
+                    got.append(repr(node.fmtdict.get(field, None)))
+                except Exception as e:
+                    got.append("raised " + type(e).__name__)
+            ctx.count(1)
+            if got[1] == "None":
+                dist["%s.not-derived-on-this-node" % kind] += 1     # e.g. struct-only fields on a class
+                continue
+            orc.kinds["format-vs-template"] += 1
+            dist["%s.%s" % (kind, "equal" if got[0] == got[1] else "DIFFERENT")] += 1
+            if field == "F_module_name" and got[0] == got[1] and got[0] != repr(val.lower()):
+                # model: libraryField / namespaceField with post = lower-casing
+                ctx.tie_broken("field-order-model", {"node": kind, "field": field, "value": val, "impl": got[0], "model": val.lower()})
+            if got[0] != got[1]:
+                ctx.fail("format-vs-template:%s:%s" % (kind, field),
+                         "%s field %s=%r written under format: gives %s, the same literal through option %s gives %s" % (
+                             kind, field, val, got[0], tmpl, got[1]),
+                         {"kind": "format-vs-template", "first": doc_yaml(docs[0]), "second": doc_yaml(docs[1])})
+            elif val.startswith("ZqMixed"):
+                full.append((kind, field, docs))
+    # complete outputs for a sample (always the Fortran module names)
+    sample = [x for x in full if x[1] == "F_module_name"]
+    rest = [x for x in full if x[1] != "F_module_name"]
+    sample += r.sample(rest, min(len(rest), 6 if thorough else 2))
+    for kind, field, docs in sample:
+        orc.compare_docs("format-vs-template-output", "format-vs-template-output:%s:%s" % (kind, field),
+                         "%s field %s under format: vs through its template option" % (kind, field), docs[0], docs[1], skip_json=True)
+    ctx.note("format_vs_template_distribution", dict(dist))
+
+
+def oracle_member_kinds(ctx, orc, scr, r, thorough, defaults_o):
+    """Options that are read from namespace scopes only (class scopes only): written on the library, or on an enclosing
+    namespace, they equal the same option written on every namespace (class) inside.  This sees a container loop that
+    reads a member's option from the enclosing node."""
+    ns_o = extract_optreads.baseline_kind("namespace_scoped_options")
+    cls_o = extract_optreads.baseline_kind("class_scoped_options")
+    dist = collections.Counter()
+    for rep in range(3 if thorough else 1):
+        cnt = [0]
+
+        def fn():
+            cnt[0] += 1
+            return ("fn", "f%d" % cnt[0], {}, {}, r.choice(POOL_FREE[:9]))
+        inner = ("ns", "deep", {}, {}, [fn(), ("cls", "Kd", {}, {}, [fn()])])
+        tree = [("ns", "outer", {}, {}, [fn(), inner, ("cls", "Ko", {}, {}, [fn(), fn()])]),
+                ("ns", "second", {}, {}, [fn(), ("block", "B", {}, {}, [("ns", "inblock", {}, {}, [fn()])])]),
+                ("cls", "Kt", {}, {}, [fn()]), fn()]
+        doc = {"library": "mk%d" % rep, "cxx_header": "mk.hpp", "options": {"debug_testsuite": True, "wrap_python": rep % 2 == 0,
+                                                                              "wrap_lua": rep == 1}, "format": {}, "tree": tree}
+        base, eb, _ = run_doc(doc, scr, "mk%d-base" % rep)
+        if eb:
+            ctx.note("member_kind_library_rejected", eb)
+            continue
+        for kind, names in (("ns", ns_o), ("cls", cls_o)):
+            for key in names:
+                val = alt_value(key, defaults_o.get(key))
+                if val is None:
+                    continue
+                places = [((), "library")] + [(p, it[0]) for p, it in containers(tree) if it[0] == "ns"]
+                if not thorough:
+                    places = places[:2]
+                for p, pk in places:
+                    a = copy.deepcopy(doc); b = copy.deepcopy(doc)
+                    if p == ():
+                        a["options"] = dict(a["options"]); a["options"][key] = val
+                    else:
+                        a["tree"] = set_on(tree, p, 2, key, val)
+                    b["tree"] = set_on_kind(tree, p, 2, key, val, kind)
+                    if p != () and kind == "ns":
+                        # the namespace the option is written on reads it itself
+                        b["tree"] = set_on(b["tree"], p, 2, key, val)
+                    dist["%s-scoped.%s.on-%s" % (kind, type(val).__name__, pk)] += 1
+                    orc.compare_docs("%s-option-on-%s" % (kind, pk), "member-kind:%s:%s:%s" % (kind, key, pk),
+                                     "option %s=%r on %s vs on every %s inside" % (key, val, pk, {"ns": "namespace", "cls": "class"}[kind]),
+                                     a, b, base_tree=base)
+    ctx.note("member_kind_distribution", dict(dist))
+
+
 def oracle_pairs(ctx, scr, thorough, fs_options, fs_formats, defaults_o, defaults_f):
     r = common.rng("c14-oracle")
     orc = Oracle(ctx, scr)
@@ -1831,15 +2008,17 @@ def oracle_pairs(ctx, scr, thorough, fs_options, fs_formats, defaults_o, default
         orc.compare_docs("attrs", "attrs:%s" % inline.split("(")[0].split()[-1] if False else "attrs:%d" % i,
                          "inline attributes vs attrs/fattrs: %s" % inline, a, b, skip_json="nodecl")
 
-    oracle_attrs(ctx, orc, r, thorough)
+    _guard(ctx, 'oracle_attrs', oracle_attrs, ctx, orc, r, thorough)
     _phase("oracle:locality+aliases")
-    oracle_locality(ctx, orc, scr, r, thorough, opt_cases, fmt_cases)
-    oracle_aliases(ctx, orc, scr, r, thorough, opt_cases, fmt_cases)
+    _guard(ctx, 'oracle_locality', oracle_locality, ctx, orc, scr, r, thorough, opt_cases, fmt_cases)
+    _guard(ctx, 'oracle_aliases', oracle_aliases, ctx, orc, scr, r, thorough, opt_cases, fmt_cases)
+    _guard(ctx, 'oracle_format_vs_template', oracle_format_vs_template, ctx, orc, scr, r, thorough)
+    _guard(ctx, 'oracle_member_kinds', oracle_member_kinds, ctx, orc, scr, r, thorough, defaults_o)
 
     _phase('oracle:cli+path')
     # ---------- YAML fields vs --option / --language (fresh processes, real command line)
-    oracle_cli(ctx, orc, scr, r, thorough, defaults_o)
-    oracle_paths(ctx, orc, scr, thorough)
+    _guard(ctx, 'oracle_cli', oracle_cli, ctx, orc, scr, r, thorough, defaults_o)
+    _guard(ctx, 'oracle_paths', oracle_paths, ctx, orc, scr, thorough)
 
     _phase('oracle:create_wrapper')
     # ---------- create_wrapper vs the command line
@@ -1876,7 +2055,7 @@ def oracle_pairs(ctx, scr, thorough, fs_options, fs_formats, defaults_o, default
                          {"kind": "create_wrapper", "first": text, "second": text, "file": diff[0]})
             else:
                 ctx.nontrivial("create_wrapper:%d" % i)
-    oracle_create_wrapper_sequences(ctx, orc, scr, r, thorough)
+    _guard(ctx, 'oracle_create_wrapper_sequences', oracle_create_wrapper_sequences, ctx, orc, scr, r, thorough)
     ctx.note("oracle_pairs_by_kind", dict(orc.kinds))
     ctx.note("oracle_pairs_effective", dict(orc.effective))
     ctx.note("oracle_pairs_both_rejected", dict(orc.errors))
@@ -2163,6 +2342,8 @@ def _run(ctx, thorough, ok, drv, scr):
             toks, res = real_attribute(text)
         except RuntimeError:
             continue  # tokenizer error (C09's subject)
+        except Exception as e:
+            toks, res = [], "crash " + type(e).__name__
         reqs.append("at " + " ".join("%s:%s" % (t.typ, common.enc(t.value)) for t in toks) if toks else "at")
         impl.append(res)
         tags.append("at")
